@@ -570,6 +570,7 @@ class Grid:
         """
 
         interp_axes = []
+        interp_to = {}
         for axname, axis in self.axes.items():
             try:
                 position_array, _ = axis._get_position_name(array)
@@ -582,10 +583,13 @@ class Grid:
                 continue
             if position_like != position_array:
                 interp_axes.append(axname)
+                # move to the position of `like`, which need not be the axis' default shift
+                interp_to[axname] = position_like
 
         array = self.interp(
             array,
             interp_axes,
+            to=interp_to,
             fill_value=fill_value,
             boundary=boundary,
         )
